@@ -163,8 +163,8 @@ def stateJson (c : Cond) : Json :=
 
 def offerJson (o : Offer) : Json :=
   Json.mkObj [("id", .str o.id), ("route", jn o.route),
-    ("actions", .arr (o.actions.map fun a => Json.mkObj [("action", .str a.action),
-        ("input", jsonOfVal (.dict a.input)),
+    ("actions", .arr (o.actions.map fun a => Json.mkObj [("action", if a.action == "" then .null else .str a.action),
+        ("input", jsonOfVal a.input),
         ("item_id", match a.itemId with | some i => jn i | none => .null)]).toArray),
     ("delay", match o.delay with | some v => jsonOfVal v | none => .null),
     ("items_count", match o.itemsCount with | some n => jn n | none => .null),
